@@ -159,6 +159,27 @@ func isGate(ev string) bool {
 	return n > 5 && ev[n-5:] == ".gate"
 }
 
+// adoption of objects whose background goroutine calls hooks before the constructor has returned
+var (
+	adoptMu   sync.Mutex
+	adoptRun  *Run
+	adoptGate func(ev string, sub interface{})
+)
+
+func adopt(obj interface{}) (*Run, func(ev string, sub interface{})) {
+	if _, ok := obj.(*rpc.Client); !ok {
+		return nil, nil
+	}
+	adoptMu.Lock()
+	defer adoptMu.Unlock()
+	if adoptRun == nil {
+		return nil, nil
+	}
+	route(obj, adoptRun)
+	setGate(obj, adoptGate)
+	return adoptRun, adoptGate
+}
+
 func installHook() {
 	rpc.VerifHook = hook
 }
@@ -185,6 +206,9 @@ func hook(ev string, obj, sub interface{}, a, b uint64) {
 		gateMu.RLock()
 		f := gates[obj]
 		gateMu.RUnlock()
+		if f == nil {
+			_, f = adopt(obj)
+		}
 		if f != nil {
 			f(ev, sub)
 		}
@@ -193,6 +217,9 @@ func hook(ev string, obj, sub interface{}, a, b uint64) {
 	var r *Run
 	if obj != nil {
 		r = lookup(obj)
+		if r == nil {
+			r, _ = adopt(obj)
+		}
 	}
 	call, _ := sub.(*rpc.Call)
 	if r == nil && call != nil {
